@@ -15,7 +15,7 @@ STEP_LIMIT = 600_000
 BOUNDS = {
     'quick': 'term texts of the C19 grammar to depth 1 plus signed numbers (-3, +7, -3.8, +0.5), punctuation atoms (\\,) and quoted atoms; each text as written and with every 2nd '
              'letter/digit position symbolic; parsed (1) alone by parse_term, (2) as f(T) and f(x, T) by parse_complex, (3) as [T] and [x, T] by parse_linked_list, '
-             '(4) as right and left operand of `=` and right operand of `<` by parse_subgoal, (5) as q(T) by parse_query, (6) as argument of print(T) and append(T, $X) by parse_subgoal; '
+             '(2b) as a later argument after siblings `.`, `readme.txt`, 2.5, -3, a quoted atom, a list and a complex term; (4) as right and left operand of `=` and right operand of `<` by parse_subgoal, (5) as q(T) by parse_query, (6) as argument of print(T) and append(T, $X) by parse_subgoal; '
              'all results must be the same term (query variables compared by name)',
     'thorough': 'depth 2 and every replaceable position symbolic',
 }
@@ -23,7 +23,10 @@ OUTSIDE = 'texts containing an infix operator at top level (they are goals or fu
 ASSUMPTIONS = ['variables are compared by name: make_query gives query variables fresh ids, all other contexts leave id 0']
 
 EXTRA = [G.fixed('-') + G.T('3', 'n'), G.fixed('+') + G.T('7', 'n'), G.fixed('-') + G.T('3.8', 'd-n'), G.fixed('+') + G.T('0.5', 'd-n'), G.fixed('\\,'),
-         G.fixed('"') + G.T('a b', 'l-l') + G.fixed('"'), G.fixed('-') + G.T('12', 'nd'), G.fixed('$') + G.T('X1', 'ud')]
+         G.fixed('"') + G.T('a b', 'l-l') + G.fixed('"'), G.fixed('-') + G.T('12', 'nd'), G.fixed('$') + G.T('X1', 'ud'),
+         # literals longer than an i64 can be (floats may be), the longest integers, a long atom, punctuation atoms
+         G.fixed('3.14159265358979323846'), G.fixed('-0.00000000000000000001'), G.fixed('+602214076000000000000000.5'), G.fixed('-1234567890123456789'),
+         G.fixed('9223372036854775807'), G.fixed('abcdefghijklmnopqrstuvwxyz'), G.fixed('.'), G.fixed('?'), G.fixed('readme.txt'), G.fixed('St. John')]
 
 
 def cases(tier, seed):
@@ -68,6 +71,15 @@ def run(drv, case):
     contexts = [
         ('complex-argument', 'complex', L('f(') + T + L(')'), lambda v: v[1][1]),
         ('complex-argument', 'complex', L('f(x, ') + T + L(')'), lambda v: v[1][2]),
+        # after siblings that leave the argument scanner in every state: a period, digits, a sign, quotes, brackets
+        ('complex-argument', 'complex', L('f(., ') + T + L(')'), lambda v: v[1][2]),
+        ('complex-argument', 'complex', L('f(readme.txt, a, ') + T + L(')'), lambda v: v[1][3]),
+        ('complex-argument', 'complex', L('f(2.5, ') + T + L(')'), lambda v: v[1][2]),
+        ('complex-argument', 'complex', L('f(-3, ') + T + L(', x)'), lambda v: v[1][2]),
+        ('complex-argument', 'complex', L('f("a, b", [1.5], g(7), ') + T + L(')'), lambda v: v[1][4]),
+        ('list-element', 'list', L('[., 2.5, ') + T + L(']'), lambda l: l[2][2][1]),
+        ('query-argument', 'query', L('q(., ') + T + L(')'), lambda g: g[1][1][2]),
+        ('builtin-argument', 'subgoal', L('print(., ') + T + L(')'), lambda g: g[2][1]),
         ('list-element', 'list', L('[') + T + L(']'), first_elem),
         ('list-element', 'list', L('[x, ') + T + L(']'), second_elem),
         ('infix-operand', 'subgoal', L('$Z = ') + T, lambda g: g[2][1]),
